@@ -292,6 +292,7 @@ def run(ctx: core.Ctx):
     ctx.floor('table.add.rejected', 100)
     ctx.floor('table.update', 1000)
     ctx.floor('table.invariant_evaluations', 10000)
+    ctx.floor('mdib.walks', 1000)
 
 
 def dispatch(ctx: core.Ctx, job):
